@@ -24,6 +24,9 @@ import registry  # noqa: E402
 import gen_c13  # noqa: E402
 
 SCRATCH_ROOT = os.environ.get("VERIF_SCRATCH", "/var/tmp")
+# evidence directory (overridable so that development runs against scratch copies of /repo --
+# engine/seedpar.py -- never touch the committed evidence)
+EVDIR = os.environ.get("VERIF_EVIDENCE", os.path.join(VERIF, "evidence"))
 
 
 def log(*a):
@@ -187,7 +190,7 @@ def main():
         known = load_known()
         violations, known_hits, spurious = [], [], []
         replays = 0
-        os.makedirs(os.path.join(VERIF, "evidence", "replay"), exist_ok=True)
+        os.makedirs(os.path.join(EVDIR, "replay"), exist_ok=True)
         for r in results:
             if r["verdict"] != "fail":
                 continue
@@ -210,7 +213,7 @@ def main():
             if kf:
                 known_hits.append((kf[0], r))
             else:
-                path = os.path.join(VERIF, "evidence", "replay", "%s-%s.json" % (pid, ".".join(h["fqn"].split("::")[-3:])))
+                path = os.path.join(EVDIR, "replay", "%s-%s.json" % (pid, ".".join(h["fqn"].split("::")[-3:])))
                 json.dump({"property": pid, "harness": h["fqn"], "key": key,
                            "failed_checks": mine, "replay": rp, "what": h.get("what")},
                           open(path, "w"), indent=1)
@@ -264,8 +267,8 @@ def main():
             "wall_s": round(time.time() - t0, 1),
             "violations": len(violations),
         }
-        os.makedirs(os.path.join(VERIF, "evidence"), exist_ok=True)
-        json.dump(ev, open(os.path.join(VERIF, "evidence", pid + ".json"), "w"), indent=1)
+        os.makedirs(EVDIR, exist_ok=True)
+        json.dump(ev, open(os.path.join(EVDIR, pid + ".json"), "w"), indent=1)
 
         for k, r in known_hits:
             log("KNOWN-FINDING: property=%s %s [%s]" % (pid, k["what"], k["key"]))
@@ -281,7 +284,7 @@ def main():
         if violations:
             return 1
         if inconcl or spurious:
-            keep = os.path.join(VERIF, "evidence", "logs-" + pid)
+            keep = os.path.join(EVDIR, "logs-" + pid)
             shutil.rmtree(keep, ignore_errors=True)
             os.makedirs(keep, exist_ok=True)
             for r in inconcl + [s[0] for s in spurious]:
